@@ -91,7 +91,9 @@ def cases(rng, tier):
         elif c == 1:
             yield Case(program="ㅂㄱㅎㄱ", mode='cli', tag='cli-nil', monitor='c18_exit', data=('exit', 0))
         elif c == 2:     # function applied to the command-line arguments: number of arguments / length of the first
-            argv = tuple(rng.choice(["a", "bc", "가나다", "", "x y"]) for _ in range(rng.randint(1, 3)))
+            # arguments reach the program code point for code point (decomposed Hangul, combining marks, NFC-unstable singletons)
+            argv = tuple(rng.choice(["a", "bc", "가나다", "", "x y", "\u1100\u1161", "e\u0301", "\u212b", "\uf900x", "a\u0301\u0301b"])
+                         for _ in range(rng.randint(1, 3)))
             # every kind of function is applied to the command-line arguments, not only literal definitions: a pipe,
             # a spread / collect wrapper, a built-in module function, a partially built closure returned by a call
             for prog, want in [("ㅈㄷ ㄴㄱㅎㄴ", ('exit', len(argv[0])) if len(argv) == 1 else None),
